@@ -177,7 +177,13 @@ def handler(case):
             want = [float(x) for x in rows[-1]] if n else []
             if len(got) != n or any(abs(a - w) > 1e-9 * max(1, abs(w)) for a, w in zip(got, want)):
                 viols.append(("prepare.system-prod", f"{what}: production profile of {P.name} is {got[:6]}... ({len(got)} values), the resampling rule gives {want[:6]}..."))
-        return dict(ops=ops if n else [], impl=[o for o in outs], viols=viols[:3],
+        # correspondence with the model's prepare_system (C19.prepare_one_value_per_increment): the model decides the number of
+        # increments itself; compared: that number and the length of every resampled profile (values: oracle above, floats)
+        pops = ["prof prepare " + f"{fr(F(case['period_min'], 60))} {fr(F(case['step_min'], 60))} 1 " + " ".join(flist([F(x) for x in pr]) for pr in case["prof"])]
+        lens = [len(b.pload_data[0]) for b in loads[:2]] + [len(P.pprod_data) for P in ps.productions[:1]]
+        pimpl = [f"{n} " + " ".join(str(x) for x in lens)]
+        case["_nprof"] = len(lens)
+        return dict(ops=pops, impl=pimpl, viols=viols[:3],
                     nontrivial=("prepare-system", case["period_min"] % case["step_min"] == 0, u, min(n, 30), bool(ps.productions)), tag="prepare-system")
     if k == "prepare-prod":
         # the whole production path: add_prod_data, prepare_prod_data (resampling), then set_prod in every increment:
@@ -220,7 +226,15 @@ def compare(case, m, i):
     if case["kind"] == "prepare-multi":
         return m == i
     if case["kind"] == "prepare-system":
-        return True          # the model's values are compared inside the handler (floats against rationals, 1e-9)
+        if not m:
+            return True
+        parts = m[0].split(" ")
+        got = i[0].split(" ")
+        # model: n and the resampled profiles; implementation: n and the lengths of (up to) two load profiles and the production profile
+        ml = [parts[0]] + [str(0 if p == "-" else len(p.split(","))) for p in parts[1:]]
+        k = len(got) - 1
+        sel = ml[1:3][:max(0, k - 1)] + ml[-1:] if k >= 1 else []
+        return ml[0] == got[0] and all(x == got[0] for x in got[1:]) and all(x == ml[0] for x in ml[1:])
     if case["kind"] in ("interp", "prepare"):
         if i[0] is None:
             return True
